@@ -76,6 +76,8 @@ Definition dot (contig : bool) (a b : vec) : F :=
 Definition abs_diff_eq (a b : F) : bool :=
   leb o (if ltb o b a then a - b else b - a) (fx_eps fx).
 Definition abs_diff_ne (a b : F) : bool := negb (abs_diff_eq a b).
+(** `a != F::zero()` (IEEE comparison: true for NaN, false for -0) *)
+Definition nonzero (a : F) : bool := negb (eqb o a f0).
 
 (** ArrayBase::scaled_add: y_i <- y_i + alpha * x_i *)
 Definition scaled_add (r : vec) (alpha : F) (x : vec) : vec := map2 (fun ri xi => ri + alpha * xi) r x.
@@ -129,23 +131,29 @@ Definition duality_gap (cols : list vec) (y w r : vec) : F :=
 Definition cd_new_w (tmp nj : F) : F :=
   (fx_signum fx tmp * fx_max fx (abs o tmp - (nF * l1r) * pen) f0) / (nj + (nF * (f1 - l1r)) * pen).
 
-(** one sweep `for j in 0..n_features`; returns (w, (r, (w_max, d_w_max))) *)
-Fixpoint cd_sweep (cols : list vec) (norms w : vec) (r : vec) (wmax dwmax : F)
+(** one sweep `for j in 0..n_features`; returns (w, (r, (w_max, d_w_max))).  [nz] is the test that guards the
+    two residual updates of a coordinate: `old_w_j != 0` / `w[j] != 0` since the repair 8010f90 (finding F52),
+    `abs_diff_ne!(., 0)` before it *)
+Fixpoint cd_sweep_gen (nz : F -> bool) (cols : list vec) (norms w : vec) (r : vec) (wmax dwmax : F)
   : vec * (vec * (F * F)) :=
   match cols, norms, w with
   | xj :: cols', nj :: norms', wj :: w' =>
       if abs_diff_eq nj f0 then
-        let '(w2, rest) := cd_sweep cols' norms' w' r wmax dwmax in (wj :: w2, rest)
+        let '(w2, rest) := cd_sweep_gen nz cols' norms' w' r wmax dwmax in (wj :: w2, rest)
       else
-        let r1 := if abs_diff_ne wj f0 then scaled_add r wj xj else r in
+        let r1 := if nz wj then scaled_add r wj xj else r in
         let tmp := dot cc xj r1 in
         let wn := cd_new_w tmp nj in
-        let r2 := if abs_diff_ne wn f0 then scaled_add r1 (opp o wn) xj else r1 in
+        let r2 := if nz wn then scaled_add r1 (opp o wn) xj else r1 in
         let dwj := abs o (wn - wj) in
-        let '(w2, rest) := cd_sweep cols' norms' w' r2 (fx_max fx wmax (abs o wn)) (fx_max fx dwmax dwj) in
+        let '(w2, rest) := cd_sweep_gen nz cols' norms' w' r2 (fx_max fx wmax (abs o wn)) (fx_max fx dwmax dwj) in
         (wn :: w2, rest)
   | _, _, _ => ([], (r, (wmax, dwmax)))
   end.
+(** the code as it is *)
+Definition cd_sweep := cd_sweep_gen nonzero.
+(** the code before the repair of finding F52 (kept for the witness [cd_sweep_band_refuted]) *)
+Definition cd_sweep_absdiff := cd_sweep_gen (fun a => abs_diff_ne a f0).
 
 (** the `while n_steps < max_steps` loop; [fuel] = max_steps *)
 Fixpoint cd_loop (fuel : nat) (maxit : N) (cols : list vec) (norms y : vec) (tolY dwtol : F)
@@ -207,25 +215,31 @@ Definition rank1 (plus : bool) (R : list vec) (xj : vec) (wj : vec) : list vec :
                 map2 (fun rik wk => if plus then rik + xi * wk else rik - xi * wk) row wj)
       (combine R xj).
 
-Fixpoint bcd_sweep (cols : list vec) (norms : vec) (W : list vec) (R : list vec) (wmax dwmax : F)
+(** [nz] guards the two rank-one residual updates: `norm_old_w_j != 0` / `norm_w_j != 0` since the repair
+    8010f90 (finding F52), `abs_diff_ne!(., 0)` before it *)
+Fixpoint bcd_sweep_gen (nz : F -> bool) (cols : list vec) (norms : vec) (W : list vec) (R : list vec) (wmax dwmax : F)
   : list vec * (list vec * (F * F)) :=
   match cols, norms, W with
   | xj :: cols', nj :: norms', wj :: W' =>
       if abs_diff_eq nj f0 then
-        let '(W2, rest) := bcd_sweep cols' norms' W' R wmax dwmax in (wj :: W2, rest)
+        let '(W2, rest) := bcd_sweep_gen nz cols' norms' W' R wmax dwmax in (wj :: W2, rest)
       else
         let nold := norm2 wj in
-        let R1 := if abs_diff_ne nold f0 then rank1 true R xj wj else R in
+        let R1 := if nz nold then rank1 true R xj wj else R in
         let tmp := map (fun rc => dot (cc && t1) rc xj) (columns R1) in
         let den := nj + (nF * (f1 - l1r)) * pen in
         let wn := map (fun v => v / den) (block_soft_thresholding tmp ((nF * l1r) * pen)) in
         let nnew := norm2 wn in
-        let R2 := if abs_diff_ne nnew f0 then rank1 false R1 xj wn else R1 in
+        let R2 := if nz nnew then rank1 false R1 xj wn else R1 in
         let dwj := abs o (nnew - nold) in
-        let '(W2, rest) := bcd_sweep cols' norms' W' R2 (fx_max fx wmax nnew) (fx_max fx dwmax dwj) in
+        let '(W2, rest) := bcd_sweep_gen nz cols' norms' W' R2 (fx_max fx wmax nnew) (fx_max fx dwmax dwj) in
         (wn :: W2, rest)
   | _, _, _ => ([], (R, (wmax, dwmax)))
   end.
+(** the code as it is *)
+Definition bcd_sweep := bcd_sweep_gen nonzero.
+(** the code before the repair of finding F52 (kept for the witness [bcd_sweep_band_refuted]) *)
+Definition bcd_sweep_absdiff := bcd_sweep_gen (fun a => abs_diff_ne a f0).
 
 Definition sqsum (M : list vec) : F := seq_sum o (map (fun v => v * v) (concat M)).
 
